@@ -333,7 +333,7 @@ func cmdCheck(e *environ, spec *propSpec, tier string, base uint64, start time.T
 		unlisted += len(rs)
 		// shrink the smallest example and write the replay file
 		sort.Slice(rs, func(i, j int) bool { return tapeLen(rs[i].Tapes) < tapeLen(rs[j].Tapes) })
-		rp, st, err := shrinkAndSave(e, b, spec, tier, base, rs[0])
+		rp, st, err := shrinkAndSave(e, b, spec, tier, base, rs[0], len(violLines) < 3)
 		if err != nil {
 			infra = append(infra, fmt.Sprintf("replay of %s did not reproduce: %v", sig, err))
 			continue
@@ -441,7 +441,7 @@ func runReplay(e *environ, b *built, spec *propSpec, rp *replayFile) (*record, e
 	return &recs[0], nil
 }
 
-func shrinkAndSave(e *environ, b *built, spec *propSpec, tier string, base uint64, r record) (string, map[string]any, error) {
+func shrinkAndSave(e *environ, b *built, spec *propSpec, tier string, base uint64, r record, doShrink bool) (string, map[string]any, error) {
 	sig := r.signature()
 	stats := map[string]any{"signature": sig}
 	if r.Tapes == nil {
@@ -484,7 +484,12 @@ func shrinkAndSave(e *environ, b *built, spec *propSpec, tier string, base uint6
 			cur.LogTail = rec.Log
 			return true
 		}
-		shrinkTapes(cur, try, func() bool { return tried >= 400 || time.Now().After(deadline) })
+		if doShrink {
+			shrinkTapes(cur, try, func() bool { return tried >= 400 || time.Now().After(deadline) })
+		} else {
+			// only the first few signatures of a batch are minimised; the rest are normalised
+			cur.Tapes = *first.Tapes
+		}
 		stats["candidates"] = tried
 		stats["accepted"] = accepted
 	}
